@@ -2432,6 +2432,11 @@ def get_data_into(
     result.contact.flex[:ncon] = d.contact.flex.numpy()[ncon_filter]
     result.contact.elem[:ncon] = d.contact.elem.numpy()[ncon_filter]
     result.contact.vert[:ncon] = d.contact.vert.numpy()[ncon_filter]
+  else:
+    # geom-geom contacts: no flex, element or vertex (the device arrays are not allocated)
+    result.contact.flex[:ncon] = -1
+    result.contact.elem[:ncon] = -1
+    result.contact.vert[:ncon] = -1
   result.contact.efc_address[:ncon] = contact_efc_address_ordered[:ncon]
 
   result.M[:] = d.M.numpy()[world_id]
